@@ -143,6 +143,24 @@ def main():
             data = pd.Series(np.array([np.nan if v is None else v for v in vals], dtype="float64"))
             block, out = writer.make_definitions(data, c["no_nulls"], c["version"])
             return ["ok", bytes(block).hex(), len(out)]
+        if fn == "page_v1_dict":
+            # the Python CALLER of the native decoders: core.read_data_page on a foreign (not self-made) v1 data page
+            # holding dictionary indices of width w (and, for an OPTIONAL column, width-1 definition levels)
+            import io
+            from fastparquet import parquet_thrift as pt, schema, core
+            root_se = pt.SchemaElement(name="schema", num_children=1)
+            col_se = pt.SchemaElement(name="c", type=pt.Type.INT32,
+                                      repetition_type=pt.FieldRepetitionType.OPTIONAL if c["optional"] else pt.FieldRepetitionType.REQUIRED)
+            helper = schema.SchemaHelper([root_se, col_se])
+            daph = pt.DataPageHeader(num_values=c["n"], encoding=pt.Encoding.RLE_DICTIONARY,
+                                     definition_level_encoding=pt.Encoding.RLE, repetition_level_encoding=pt.Encoding.RLE)
+            page = bytes.fromhex(c["page"])
+            header = pt.PageHeader(type=0, uncompressed_page_size=len(page), compressed_page_size=len(page), data_page_header=daph)
+            md = pt.ColumnMetaData(type=pt.Type.INT32, path_in_schema=["c"], codec=0, num_values=c["n"], encodings=[8],
+                                   total_uncompressed_size=len(page), total_compressed_size=len(page), data_page_offset=0)
+            defi, rep, values = core.read_data_page(io.BytesIO(page), helper, header, md, selfmade=False)
+            return ["ok", [int(x) for x in np.asarray(values)], None if defi is None else [int(x) for x in np.asarray(defi)],
+                    str(np.asarray(values).dtype)]
         if fn == "numpyio":
             # a small script of NumpyIO operations
             buf = outbuf(c["cap"])
